@@ -5,9 +5,8 @@
      code 1   the kind-by-kind model CardEdit.step predicts another result or another module
      code 2   the rose-tree specification CardEditSpec.spec_step rejects what the implementation did
      code 3   the case is malformed (payload out of range: harness defect)
-     code 10  ... rejected, and the call is swap_cards(i, i) on an existing card        (A-25)
-     code 11  ... rejected, and the call inserts beyond the end of a Call/CallNative     (A-26)
-     code 12  ... rejected, and the call is get_card on an index that misses below the top level *)
+   No known-finding class is left: A-25 (swap_cards(i, i)), A-26 (insert past the end of a call) and
+   A-41 (get_card depth) were repaired in /repo; the former classes are ordinary code-2 violations. *)
 From Cao Require Export CheckUtil CardAst CardEdit CardEditSpec.
 Local Open Scope N_scope.
 
@@ -71,11 +70,7 @@ Definition oracle_step (m : module) (o : op) (ob : obs) (m' : module) : bool :=
 Definition check_step (m : module) (o : op) (ob : obs) (m' : module) : list N :=
   (let '(mm, mob) := step m o in
    if module_eqb mm m' && obs_eqb mob ob then [] else [1]) ++
-  (if oracle_step m o ob m' then []
-   else if known_swap_same m o then [10]
-   else if known_call_insert m o then [11]
-   else if known_get_depth m o then [12]
-   else [2]) ++
+  (if oracle_step m o ob m' then [] else [2]) ++
   (if op_wf o then [] else [3]).
 
 Fixpoint check_steps (m : module) (steps : list (op * obs * module)) : list N :=
